@@ -122,7 +122,7 @@ struct Ai {
 }
 
 fn task_name(t: TaskType) -> String {
-    format!("{t:?}")
+    err_name(&format!("{t:?}"))
 }
 
 impl AssociationInformation for Ai {
@@ -142,7 +142,7 @@ impl AssociationInformation for Ai {
 
 /// short stable name of an error (variant name without payload)
 fn err_name(dbg: &str) -> String {
-    let s = dbg.split(|c| c == '(' || c == '{' || c == ' ').next().unwrap_or(dbg);
+    let s = dbg.split(|c| c == '(' || c == '{' || c == ' ' || c == ')').next().unwrap_or(dbg);
     s.to_string()
 }
 
@@ -448,10 +448,13 @@ impl Run {
                     match h.operate(mode, command_headers(&st["objs"])).await {
                         Ok(()) => "ok".to_string(),
                         Err(e) => {
+                            // CommandError::Task(x) -> the task error's name; CommandError::Response(_) -> "Response"
                             let d = format!("{e:?}");
-                            // CommandError::Task(x) / CommandError::Response(x): keep the inner name
-                            let inner = d.split('(').nth(1).unwrap_or(&d).trim_end_matches(')');
-                            format!("{}:{}", err_name(&d), err_name(inner))
+                            if d.starts_with("Task(") {
+                                err_name(d.trim_start_matches("Task("))
+                            } else {
+                                err_name(&d)
+                            }
                         }
                     }
                 }
@@ -466,7 +469,7 @@ impl Run {
                 "restart" => {
                     let r = if st["warm"].as_bool().unwrap_or(false) { h.warm_restart().await } else { h.cold_restart().await };
                     match r {
-                        Ok(d) => format!("ok:{}", d.as_millis()),
+                        Ok(_d) => "ok".to_string(),
                         Err(e) => err_name(&format!("{e:?}")),
                     }
                 }
@@ -486,14 +489,15 @@ impl Run {
                     let period = Duration::from_millis(st["period"].as_u64().unwrap_or(1000));
                     match h.add_poll(read_request(&st), period).await {
                         Ok(ph) => {
-                            polls.lock().unwrap().push((st["pid"].as_u64().unwrap_or(0), ph));
+                            let key = st["assoc"].as_u64().unwrap_or(0) * 1000 + st["pid"].as_u64().unwrap_or(0);
+                            polls.lock().unwrap().push((key, ph));
                             "ok".to_string()
                         }
                         Err(e) => err_name(&format!("{e:?}")),
                     }
                 }
                 "poll_demand" => {
-                    let pid = st["pid"].as_u64().unwrap_or(0);
+                    let pid = st["assoc"].as_u64().unwrap_or(0) * 1000 + st["pid"].as_u64().unwrap_or(0);
                     let ph = polls.lock().unwrap().iter().find(|x| x.0 == pid).map(|x| x.1.clone());
                     match ph {
                         Some(mut p) => match p.demand().await { Ok(()) => "ok".to_string(), Err(_) => "Shutdown".to_string() },
@@ -575,6 +579,7 @@ impl Run {
                     c.write(&f).await;
                 }
                 line.insert("ctrl".into(), json!(ctrl));
+                line.insert("src".into(), json!(src));
                 settle().await;
             }
             "raw" => {
@@ -658,6 +663,8 @@ impl Run {
         let dst = st["dst"].as_u64().unwrap_or(self.maddr as u64) as u16;
         let mut d = codec::decode_fragment(&frag, true);
         d.as_object_mut().unwrap().insert("bid".into(), json!(self.intern.id(&frag)));
+        let objs = if frag.len() > 4 { frag[4..].to_vec() } else { Vec::new() };
+        d.as_object_mut().unwrap().insert("obid".into(), json!(self.intern.id(&objs)));
         line.insert("frag".into(), d);
         line.insert("src".into(), json!(src));
         line.insert("dst".into(), json!(dst));
